@@ -91,3 +91,44 @@ package resource
 //@ func ParseVersion
 //@   props C01
 //@   ensures [one] ver == "1" ==> result1 == nil && result0.uint64 != nil && *result0.uint64 == 1 && fresh(result0.uint64)
+
+// Query option constructors only build closures.
+//@ func LabelEqual
+//@   props C14
+//@   pure
+//@   ensures result != nil
+//@ func LabelExists
+//@   props C14
+//@   pure
+//@   ensures result != nil
+//@ func LabelIn
+//@   props C14
+//@   pure
+//@   ensures result != nil
+//@ func LabelLT
+//@   props C14
+//@   pure
+//@   ensures result != nil
+//@ func LabelLTE
+//@   props C14
+//@   pure
+//@   ensures result != nil
+//@ func LabelLTNumeric
+//@   props C14
+//@   pure
+//@   ensures result != nil
+//@ func LabelLTENumeric
+//@   props C14
+//@   pure
+//@   ensures result != nil
+//@ func NotMatches
+//@   props C14
+//@   pure
+//@ func IDRegexpMatch
+//@   props C14
+//@   pure
+//@   ensures result != nil
+
+//@ func ParsePhase
+//@   props C18
+//@   pure
